@@ -186,6 +186,20 @@ pub fn exec_more(t: &[&str]) -> R {
                 Ok(format!("id={} text={}", hex(key.id().to_string().as_bytes()), hex(key.expose_key().to_string().as_bytes())))
             }))
         }
+        // the same key bytes offered to both back ends of a version: whenever both accept them, id and PASERK text agree
+        "o.id.sib" => {
+            let (ver, k, raw) = (*t.get(1).ok_or_else(bad)?, kd(2)?, hx(3)?);
+            let (b1, b2) = match ver { "3" => (Be::V3, Be::V3Lc), "4" => (Be::V4, Be::V4S), _ => return Err(bad()) };
+            let f = |b: Be| -> Option<(String, String)> {
+                with_v!(b, V => with_kind!(k, K => {
+                    let key = key_of::<V, K>(&raw).ok()?;
+                    Some((key.id().to_string(), key.expose_key().to_string()))
+                }))
+            };
+            let (a, c) = (f(b1), f(b2));
+            let agree = match (&a, &c) { (Some(x), Some(y)) => x == y, _ => true };
+            Ok(format!("a={} b={} agree={}", a.is_some() as u8, c.is_some() as u8, agree as u8))
+        }
         // two encodings of the same key (PEM / DER, compressed / uncompressed) give one id
         "o.id.eq" => {
             let (b, k, r1, r2) = (be(1)?, kd(2)?, hx(3)?, hx(4)?);
